@@ -197,6 +197,34 @@ def value_of(node):
 _BUILD_CACHE = {}
 
 
+class ShapeMismatch(Exception):
+    """after a history containing REJECTED operations the real tree does not have the shape the history
+    simulated on the description has (a rejected operation left something behind): the elements cannot
+    be labelled; `root` is the real root element"""
+
+    def __init__(self, root, msg):
+        Exception.__init__(self, msg)
+        self.root = root
+        self.msg = msg
+
+
+def has_rejected(history):
+    return any(op["op"] == "rejected" for op in (history or []))
+
+
+def rejectable_value(member):
+    """a plain value the member schema rejects BY RAISING from set() (not by returning False), or None:
+    a Dict / SparseDict member (default `subset` policy) raises KeyError for an undeclared key; a List of
+    such members propagates it; scalars, Arrays, MultiValues, JoinedStrings, Compounds and Lists of them
+    never raise"""
+    if member["k"] == "d":
+        return {"__undeclared__": "x"}
+    if member["k"] == "l":
+        inner = rejectable_value(member["member"])
+        return None if inner is None else [inner]
+    return None
+
+
 def build(tree, init=None, history=None):
     """(root element, {id: element}, {python id(element): node id}); cached per process —
     find()/fq_name() do not mutate the tree.  With a history the elements are built from `init`,
@@ -211,7 +239,14 @@ def build(tree, init=None, history=None):
     cls = schema_class(schema_of(first))
     root = cls(value_of(first))
     removed_els = []
-    if history:
+    if history and has_rejected(history):
+        try:
+            removed_els = apply_history(root, history)
+        except Exception as e:  # noqa: BLE001 — an operation AFTER a rejected one does not apply to the real tree
+            reraise_timeout(e)
+            raise ShapeMismatch(root, "after a rejected operation a later operation of the history failed on "
+                                "the real tree with %s" % exc_name(e))
+    elif history:
         removed_els = apply_history(root, history)
     byid, label = {}, {}
 
@@ -219,6 +254,9 @@ def build(tree, init=None, history=None):
         byid[node["id"]] = el
         label[id(el)] = node["id"]
         kids = list(el.children)
+        if len(kids) != len(node["kids"]) and has_rejected(history):
+            raise ShapeMismatch(root, "after a rejected operation node %s has %d children, expected %d"
+                                % (node["id"], len(kids), len(node["kids"])))
         assert len(kids) == len(node["kids"]), "harness: tree shape mismatch at node %s" % node["id"]
         if node["k"] == "s" and isinstance(el.value, str) and el.value.startswith("v"):
             assert el.value == "v%d" % node["id"], "harness: list history simulated wrongly at node %s" % node["id"]
@@ -228,14 +266,20 @@ def build(tree, init=None, history=None):
                 assert ke.name == kn["name"], "harness: field order mismatch"
                 assert keys[i] == kn.get("key", kn["name"]), "harness: dict key mismatch"
             walk(ke, kn)
-    walk(root, tree)
-    if history:
-        # members removed from a List on the way (popped / deleted / replaced): labelled too, in the
-        # order the simulation records them
-        recs = simulate_removed(init, history)
-        assert len(recs) == len(removed_els), "harness: removed members simulated wrongly"
-        for rec, el in zip(recs, removed_els):
-            walk(el, rec["node"])
+    try:
+        walk(root, tree)
+        if history:
+            # members removed from a List on the way (popped / deleted / replaced): labelled too, in the
+            # order the simulation records them
+            recs = simulate_removed(init, history)
+            assert len(recs) == len(removed_els), "harness: removed members simulated wrongly"
+            for rec, el in zip(recs, removed_els):
+                walk(el, rec["node"])
+    except AssertionError as e:
+        if has_rejected(history):
+            # with a rejected operation in the history a mismatch is something the operation left behind
+            raise ShapeMismatch(root, "after a rejected operation: %s" % e)
+        raise
     if len(_BUILD_CACHE) > 64:
         _BUILD_CACHE.clear()
     out = (root, byid, label)
@@ -311,6 +355,13 @@ def simulate_op(tree, op, removed=None):
     if op["op"] == "query":
         return  # evaluating a path does not change the tree
     n = _node_at(tree, op["at"])
+    if op["op"] == "rejected":
+        # a List operation that raises: the list is as it was before the call — except extend / +=, which
+        # append member by member and keep the members before the rejected one
+        assert n["k"] == "l"
+        if op["kind"] in ("extend-bad", "iadd-bad"):
+            n["kids"].extend(copy.deepcopy(op.get("nodes", [])))
+        return
     if op["op"] == "setfield":
         # SparseDict item assignment of an instance of a renamed subclass of the field schema: stored under
         # the field's key, keeping its own name (replaces in place, or is appended when the key was absent)
@@ -430,6 +481,9 @@ def apply_history(root, history):
             field = [f for f in lst.field_schema if f.name == op["key"]][0]
             lst[op["key"]] = field.named(op["nodes"][0]["name"])(vals[0])
             continue
+        if name == "rejected":
+            _apply_rejected(lst, op, vals)
+            continue
         if op.get("detached"):
             vals = [lst.member_schema(v) for v in vals]
             for k, rel, path in op.get("pre", []):
@@ -465,6 +519,52 @@ def apply_history(root, history):
     return removed
 
 
+REJECTED_ALWAYS = ["insert-badidx", "setslice-noniter", "extend-noniter", "setitem-oor", "setitem-stridx",
+                   "delitem-oor", "pop-oor", "remove-absent"]
+REJECTED_BAD_VALUE = ["insert-bad", "insert-bad", "insert-bad", "setslice-bad", "extend-bad", "iadd-bad", "append-bad"]
+
+
+def _apply_rejected(lst, op, vals):
+    """a List operation that the real list must reject by raising; the exception is caught (the caller goes
+    on using the tree).  Nothing is asserted here: what the call left behind is judged by the shape check of
+    `build` and by the property's oracle."""
+    kind = op["kind"]
+    bad = op.get("bad")
+    try:
+        if kind == "insert-bad":
+            lst.insert(op["i"], bad)
+        elif kind == "insert-badidx":
+            lst.insert("x", vals[0])
+        elif kind == "setslice-bad":
+            lst[op["a"]:op["b"]] = vals + [bad]
+        elif kind == "setslice-noniter":
+            lst[op["a"]:op["b"]] = 5
+        elif kind == "extend-bad":
+            lst.extend(vals + [bad])
+        elif kind == "iadd-bad":
+            lst += vals + [bad]
+        elif kind == "extend-noniter":
+            lst.extend(5)
+        elif kind == "append-bad":
+            lst.append(bad)
+        elif kind == "setitem-oor":
+            lst[op["i"]] = vals[0]
+        elif kind == "setitem-stridx":
+            lst["x"] = vals[0]
+        elif kind == "delitem-oor":
+            del lst[op["i"]]
+        elif kind == "pop-oor":
+            lst.pop(op["i"])
+        elif kind == "remove-absent":
+            lst.remove("zz-absent-value")
+        else:
+            raise AssertionError("harness: unknown rejected kind %r" % kind)
+    except AssertionError:
+        raise
+    except Exception as e:  # noqa: BLE001 — the rejection is the point
+        reraise_timeout(e)
+
+
 def _positions(node):
     out = []
 
@@ -488,15 +588,18 @@ def _sparse_positions(tree):
     return out
 
 
-def rand_history(rng, tree, nops, setfield=0.0, queries=0.25, detached=0.5):
+def rand_history(rng, tree, nops, setfield=0.0, queries=0.25, detached=0.5, rejected=0.0):
     """(final tree, history): `nops` random operations on random List nodes (any depth) of the
     evolving tree; with probability `setfield` an operation is instead a SparseDict item assignment
     of an instance of a renamed subclass of the field schema (the KF-C10-a state)"""
     t = copy.deepcopy(tree)
     nxt = _max_id(t) + 1
     hist = []
-    for _ in range(nops):
-        sparse = _sparse_positions(t) if setfield and rng.random() < setfield else []
+    remaining = nops
+    force = None   # after a rejected operation: (position of the same list, forced successful op name)
+    while remaining > 0:
+        remaining -= 1
+        sparse = _sparse_positions(t) if setfield and rng.random() < setfield and not force else []
         if sparse:
             pos = rng.choice(sparse)
             n = _node_at(t, pos)
@@ -519,10 +622,53 @@ def rand_history(rng, tree, nops, setfield=0.0, queries=0.25, detached=0.5):
         if not lists:
             break
         pos = rng.choice(lists)
+        if force is not None and force[0] in lists:
+            pos = force[0]
         n = _node_at(t, pos)
         L = len(n["kids"])
         scalar_members = n["member"]["k"] == "s"
         name = rng.choice(LIST_OPS)
+        if force is not None:
+            name = force[1] or name
+            force = None
+        elif rejected and rng.random() < rejected:
+            # an operation the list must REJECT by raising (caught by the caller), then 0-2 further successful
+            # operations, preferably on the same list and preferably ones that do not renumber (append / +=)
+            bad = rejectable_value(n["member"])
+            kinds = list(REJECTED_ALWAYS)
+            if n["member"]["k"] != "s":
+                # for container members an unadaptable value adapts to a blank member, which may EQUAL a blank
+                # member of the list (then remove() succeeds): only lists of scalars (values "v<id>") reject it
+                kinds.remove("remove-absent")
+            if bad is not None:
+                kinds += REJECTED_BAD_VALUE * 3
+            kind = rng.choice(kinds)
+            op = {"at": pos, "op": "rejected", "kind": kind}
+            if bad is not None:
+                op["bad"] = bad
+            good = []
+            if kind in ("insert-badidx", "setitem-oor", "setitem-stridx"):
+                good = [instantiate(rng, n["member"], maxlen=2)]
+            elif kind in ("setslice-bad", "extend-bad", "iadd-bad"):
+                good = [instantiate(rng, n["member"], maxlen=2) for _ in range(rng.choice([0, 1, 1, 2]))]
+            for m in good:
+                nxt = _number_from(m, nxt)
+            if good:
+                op["nodes"] = good
+            if kind == "insert-bad":
+                op["i"] = rng.choice([0, 0, 1, -1, -L, L - 1, L, L + 2, rng.randrange(-L - 1, L + 2)])
+            elif kind in ("setslice-bad", "setslice-noniter"):
+                op["a"] = rng.choice([None, 0, 1, -1, L])
+                op["b"] = rng.choice([None, 1, 2, -1, L])
+            elif kind in ("setitem-oor", "delitem-oor", "pop-oor"):
+                op["i"] = rng.choice([L, L + 1, L + 5, -L - 1, -L - 3])
+            simulate_op(t, op)
+            hist.append(op)
+            follow = rng.choice([0, 1, 1, 2]) if len(hist) < nops + 4 else 0
+            remaining = max(remaining, follow)
+            if follow:
+                force = (pos, rng.choice(["append", "append", "iadd", "iadd", None, "insert"]))
+            continue
         op = {"at": pos, "op": name}
 
         def fresh(count):
